@@ -170,7 +170,14 @@ def run_case(case):
                     if kind == "unknown_column_read":
                         pf.to_pandas(columns=["rid", "nope"])
                     else:
-                        pf.to_pandas(filters=[("nope", "==", 1)])
+                        # the unknown column first / in the middle of an AND group / in a later OR group
+                        flt = {"first": [("nope", "==", 1)],
+                               "middle": [[("rid", ">=", 0), ("nope", "==", 1), ("a", "<", 10 ** 6)]],
+                               "last": [[("rid", ">=", 0)], [("a", "<", 10 ** 6)], [("nope", "==", 1)]]}[case["pos"]]
+                        if case["rgpos"] == "later":
+                            list(pf.iter_row_groups(filters=flt))
+                        else:
+                            pf.to_pandas(filters=flt)
                     returned = True
                 else:
                     bad, kw = make_bad(case, new, rng)
@@ -195,6 +202,10 @@ def run_case(case):
         if returned:
             counters["accepted"] = 1
             counters["accepted:" + kind] = 1
+            if kind not in ("none_in_required", "na_in_required_int", "bad_object_encoding", "append_unencodable_value"):
+                # a rejection the statement names without any premise about the existing dataset: not raising is the violation
+                # (bad_object_encoding / unencodable values on append follow the stored schema, not the argument: no premise to state)
+                res["failures"].append({"kind": "operation_accepted_although_the_statement_names_its_refusal", **ctx})
             if kind in ("none_in_required", "na_in_required_int"):
                 # the statement names this rejection: a missing value in a column DECLARED non-nullable.  The premise is checked, not
                 # assumed: for an append the existing dataset's schema must say REQUIRED for that column
